@@ -68,6 +68,7 @@ let run (st : stream) (b : Buffer.t) : unit =
   match load inst perm with
   | Ok nw ->
     Buffer.add_string b "load OK\n";
+    Printf.bprintf b "perm %s\n" (String.concat " " (List.map zs perm));
     Printf.bprintf b "wf %b\n" (net_wf_b nw);
     Printf.bprintf b "maxvehicles %s\n" (zs (max_vehicles nw));
     Printf.bprintf b "ovf %b\n" (overflow_ok_b nw);
